@@ -308,6 +308,16 @@ def reachableOk (a fin : State) (w : WS) : Bool :=
       else sameView a fin (st.updated.map (·.1)) []
     loadable a (up ++ st.root) && (!parentAfter || present a st.added))
 
+/-- A handle no later writer can ever reserve again, whatever the clock: `commitUpdatedNodes` refuses a handle marked
+deleted, or with both physical ids in use, unless `IsExpiredInactive()` — which needs `WorkInProgressTimestamp > 0`. -/
+def stuck (h : Handle) : Bool := (h.deleted || h.bothInUse) && decide (h.wip ≤ 0)
+
+/-- the write set's nodes left `stuck` in state `a` -/
+def stuckLids (a : State) (w : WS) : List UUID :=
+  (upLids w).filter (fun i => match a.reg i with
+    | some h => stuck h
+    | none => false)
+
 /-! ## Maintenance scheduling (`onIdle`) -/
 
 structure Globals where
